@@ -57,6 +57,10 @@ Definition b_true : bytes := ["t"; "r"; "u"; "e"]%byte.
 Definition b_false : bytes := ["f"; "a"; "l"; "s"; "e"]%byte.
 
 (* x2bytes.ToBytes: None = ErrUnknownType *)
+(* a value a ctx assignment treats as absent: nil, or a string / byte value of length zero *)
+Definition is_void (v : value) : bool :=
+  match v with VNil | VStr [] | VBytes [] => true | _ => false end.
+
 Definition text_of (bufLC : list Z) (v : value) : option bytes :=
   match v with
   | VBool b => Some (if b then b_true else b_false)
